@@ -30,6 +30,7 @@ import (
 
 	"verif/core"
 	"verif/seqx"
+	"verif/vrt"
 )
 
 func main() {
@@ -37,7 +38,7 @@ func main() {
 	o := core.ParseFlags(40, 780)
 	log.SetOutput(io.Discard) // galene logs refused logins etc.
 	res := &core.Result{Property: "C17", Tier: o.Tier,
-		Technique: "full Cartesian product of method x router shape x credential on the real apiHandler (in-process, marker fixture, tree hashes); explicit-state BFS over valid admin update sequences vs a reference model of the group definition"}
+		Technique: "full Cartesian product of method x router shape x credential on the real apiHandler (in-process, marker fixture, tree hashes); explicit-state BFS over valid admin update sequences vs a reference model of the group definition; preemption-bounded schedule enumeration of a definition update against concurrent user/password/key updates"}
 	initProcess()
 	if o.Replay != "" {
 		replay(o.Replay)
@@ -57,6 +58,9 @@ func main() {
 	if core.Want("update-sequences") && res.Fault == "" {
 		runSeq(res, o.Shard, o.Shards)
 	}
+	if core.Want("conc") && res.Fault == "" {
+		runConcurrent(res, o.Shard, o.Shards) // last: switches the process to the scheduler
+	}
 	core.Finish(res, start)
 }
 
@@ -73,10 +77,27 @@ func replay(path string) {
 			Request reqSpec  `json:"request"`
 			Config  string   `json:"config"`
 			Ops     []string `json:"ops"`
+			Program string   `json:"program"`
+			Choices []int    `json:"choices"`
 		} `json:"replay"`
 	}
 	if err := json.Unmarshal(data, &a); err != nil {
 		fmt.Println(err)
+		os.Exit(2)
+	}
+	if a.Replay.Program != "" {
+		for _, p := range concPrograms() {
+			if p.Name == a.Replay.Program {
+				_, out, v := vrt.ReplayChoices(p, a.Replay.Choices)
+				if v != nil {
+					fmt.Printf("VIOLATION property=C17 replay=%s\n  signature: %s\n  %s\n", path, v.Signature, v.What)
+					os.Exit(1)
+				}
+				fmt.Println("replay: no violation; outcome", out)
+				return
+			}
+		}
+		fmt.Println("unknown program")
 		os.Exit(2)
 	}
 	if a.Replay.Sub == "authz-product" {
